@@ -70,8 +70,6 @@ pub open spec fn hev1_len(b: Hev1Box) -> int { 86 + hvcc_len(b.hvcc) }
 pub open spec fn hev1_wire(b: Hev1Box) -> bool { hvcc_wire(b.hvcc) && b.horizresolution.0.denom == 0x10000 && b.vertresolution.0.denom == 0x10000 && len_fits(hev1_len(b)) }
 
 // ---- vpcC / vp09 (VP codec ISOBMFF binding 2.2): fixed
-pub open spec fn vpcc_len(b: VpccBox) -> int { 20int }
-pub open spec fn vpcc_wire(b: VpccBox) -> bool { flags_wire(b.flags) && b.bit_depth < 16 && b.chroma_subsampling < 8 }
 pub open spec fn vp09_len(b: Vp09Box) -> int { 0x6aint }
 pub open spec fn vp09_wire(b: Vp09Box) -> bool { flags_wire(b.flags) && vpcc_wire(b.vpcc) }
 
